@@ -12,6 +12,7 @@ import (
 
 //verif:harness id=C16 tier=quick,thorough witness=end bounds="external callbacks and path items: an operation whose callback is a reference into another file (c.json#/components/callbacks/CB), or a path that is a reference to a path item of another file whose operation has an inline callback; the callback's operation uses its own file's components (request body schema, parameter, response header) by #/ references, the root having different components under the same names: after internalising, serialising and reloading with external references disallowed every schema reached through the callback dereferences to the same content as before"
 func verifH_C16_external_callbacks() {
+	verifMapOrder() // map iteration order is unspecified: ascending and descending key order
 	cbOp := `{"post":{"parameters":[{"$ref":"#/components/parameters/P"}],"requestBody":{"content":{"application/json":{"schema":{"$ref":"#/components/schemas/S"}}}},"responses":{"200":{"description":"d","headers":{"X":{"$ref":"#/components/headers/H"}}}}}}`
 	comps := `"components":{"schemas":{"S":{"type":"string","minLength":9}},"parameters":{"P":{"name":"p","in":"query","schema":{"$ref":"#/components/schemas/S"}}},"headers":{"H":{"schema":{"$ref":"#/components/schemas/S"}}},` +
 		`"callbacks":{"CB":{"{$request.body#/u}":` + cbOp + `}}}`
